@@ -11,14 +11,17 @@ RULE = ("one evaluation = one operation sequence over the store API run in lock-
         "compared again after close+reopen; or one crash child killed with os._exit at one boundary (before/after every "
         "SQL statement and commit, every Python line inside store/sqlite/*.py) of the last operation of a sequence, after "
         "which every touched record must be its previous or its new value; or one two-party conversation continued across "
-        "restarts. Non-trivial = the sequence replaces an existing record / the child died inside the operation; distinct "
+        "restarts; or one history of whole clients whose application threads send while the network thread confirms key "
+        "uploads, with the key store files copied as a kill would leave them after every commit, after a sample of statements "
+        "and after every commit made while another thread's replacement was half done (c13_threads.py). Non-trivial = the sequence replaces an existing record / the child died inside the operation; distinct "
         "by (sequence hash) / (op kind, state, crash point)")
 ASSUMPTIONS = ["SQLite's own atomic commit and the filesystem are trusted; only process death (os._exit) is modelled",
                "sessions use device id 1 and numeric recipient ids, as every caller in the library does",
                "one-time/signed prekeys are stored under fresh ids only (the library never overwrites an id)"]
 REQUIRED = ["profile_switch_cases", "profile_switch_ok", "profiles_cases", "profiles_ok", "profiles_ops", "reopen_right_after_again", "busy_start_cases", "busy_start_ok", "sequences", "reopen_checks", "replace_ops", "crash_children", "crash_died_inside", "crash_outcome:old",
             "crash_outcome:new", "conversation_restarts", "crash_kind:sql", "crash_kind:commit", "crash_kind:line",
-            "manager_sequences", "manager_kill_snapshots", "manager_prekeys_generated", "crash_cases_with_in_process_history"]
+            "manager_sequences", "manager_kill_snapshots", "manager_prekeys_generated", "crash_cases_with_in_process_history",
+            "threads_histories", "threads_crash_copies", "threads_rows_checked", "threads_confirmation_met_half_done_replacement"]
 TIMEOUT = {"quick": 900, "thorough": 7200}
 
 
@@ -979,6 +982,7 @@ def shards(tier, seed, nworkers):
         specs.append({"kind": "manager", "shard": i, "n": (40 if q else 1600) // nsh})
         specs.append({"kind": "busy-start", "shard": i, "n": (8 if q else 400) // nsh})
         specs.append({"kind": "profiles", "shard": i, "n": (24 if q else 1200) // nsh})
+        specs.append({"kind": "stack-threads", "shard": i, "n": (16 if q else 960) // nsh})
     return specs
 
 
@@ -1010,6 +1014,12 @@ def run(spec, acc):
         for i in range(spec["n"]):
             busy_start_case(acc, seed, "busy/%d/%d" % (sh, i), mat)
         acc.sample({"busy_start": "profile key store locked by another connection past the busy timeout while the client starts; next start must find the stored state"})
+    elif spec["kind"] == "stack-threads":
+        from vf.props import c13_threads
+        for i in range(spec["n"]):
+            c13_threads.stack_threads_case(acc, seed, "st/%d/%d" % (sh, i))
+        acc.sample({"stack_threads": "whole clients, sends from application threads while key uploads are confirmed on the network thread; key store files "
+                                     "copied as a kill would leave them (after commits, statements, commits that cut another thread's replacement in two)"})
     elif spec["kind"] == "manager":
         for i in range(spec["n"]):
             manager_case(acc, seed, "mgr/%d/%d" % (sh, i), 3 + (i % 10), mat)
@@ -1040,5 +1050,8 @@ def replay(spec, acc):
         profile_switch_case(acc, seed, tag, mat)
     elif w["kind"] == "manager":
         manager_case(acc, seed, tag, len(w.get("ops", [])) or 5, mat)
+    elif w["kind"] == "stack-threads":
+        from vf.props import c13_threads
+        c13_threads.stack_threads_case(acc, seed, tag)
     else:
         conversation_case(acc, seed, tag, w["nsteps"])
